@@ -2,6 +2,7 @@
 import random
 
 import common
+import coq_cases
 
 
 def gen_case(r):
@@ -46,6 +47,9 @@ def apply(chk, n):
             chk.violate("printImportAlias on `%s` returns `%s`; the model returns `%s`" % (c, a.strip(), b.strip()),
                         {"case": c, "real": a, "model": b})
             break
+    step = max(1, len(cases) // 10)
+    coq_cases.check_examples(chk, "alias", "AliasModel", [coq_cases.alias_example(cases[i], model[i]) for i in range(0, len(cases), step)][:12],
+                             "names returned by the extracted AliasModel.requests re-computed inside Coq")
     chk.sample({"case": cases[0], "names_and_addImports": model[0]})
     chk.cov["correspondence"]["import_aliases"] = {
         "kind": "real printImportAlias (per-file maps) vs extracted AliasModel.requests on generated request sequences with forced name collisions",
